@@ -58,7 +58,7 @@ var Known = []ResourceInfo{
 	{"apps", "v1", "deployments", "Deployment", true},
 	{"verif.example", "v1", "widgets", "Widget", true},
 	{"verif.example", "v2", "widgets", "Widget", true},
-	{"verif.example", "v1", "gadgets", "Gadget", true},
+	{"verif.example", "v1", "gadgets", "Gadget", false}, // a cluster-scoped custom kind
 	{"apiextensions.k8s.io", "v1", "customresourcedefinitions", "CustomResourceDefinition", false},
 }
 
